@@ -2,7 +2,8 @@
 
 Domain: generated diagnostic layers (1..5 services; request prefixes of 0..3 constant
 bytes over a 3-letter alphabet, realised as 8/16-bit constants in both byte orders or as
-two sub-byte constants; further VALUE parameters; positive responses with
+two sub-byte constants, optionally followed by a constant run that ends in the middle of a
+byte shared with a sub-byte VALUE; further VALUE parameters; positive responses with
 MATCHING-REQUEST-PARAM; negative responses with NRC-CONST alternatives; global negative
 responses) x messages (reference encodings of every request/response, their truncations
 and extensions, all strings of length <= 3 over a 5-letter alphabet, random short strings).
@@ -39,7 +40,7 @@ MUST_HIT = ["prefix:empty", "prefix:equal", "prefix:nested", "cc:16hl", "cc:16lh
             "resp:pos-mrp", "resp:neg-nrc", "gnr", "gnr:mrp", "msg:own-request", "msg:own-pos",
             "msg:own-neg", "msg:own-gnr", "msg:truncated", "msg:exhaustive", "msg:random",
             "attributed:request", "attributed:pos", "attributed:neg", "attributed:gnr",
-            "shared-must", "raise-ok", "via-request:ok", "groups:ok"]
+            "shared-must", "raise-ok", "via-request:ok", "groups:ok", "cc:midbyte", "attributed:midbyte"]
 
 ALPHA = [0x10, 0x11, 0x22]
 POOL = [0x50, 0x51, 0x62, 0x7F, 0x10, 0x11, 0x22]
@@ -105,6 +106,17 @@ def layers_strategy():
         return out
 
     @st.composite
+    def split_byte(draw, pos):
+        """a constant run that ends in the middle of byte `pos`: k constant bits and a VALUE of
+        8-k bits share the byte (the byte is not part of the constant prefix)"""
+        k = draw(st.sampled_from([4, 4, 1, 2, 3, 5, 6, 7]))
+        high = draw(st.sampled_from([True, True, False]))
+        cbit, vbit = (8 - k, 0) if high else (0, k)
+        target = draw(st.sampled_from(ALPHA + [0x35, 0xF0, 0x0F]))
+        return [_cc("cmid", pos, (target >> cbit) & ((1 << k) - 1), k, cbit, True),
+                {"k": "val", "name": "vsub", "pos": pos, "bit": vbit, "len": 8 - k, "hl": True}]
+
+    @st.composite
     def mrp_param(draw, pos, rqlen, npre):
         """optional MATCHING-REQUEST-PARAM echoing existing request bytes.  npre = length of the
         constant request prefix (None: unknown); an echo that is only partly covered by that
@@ -123,6 +135,9 @@ def layers_strategy():
     def response(draw, name, first, rqlen, npre, neg, nrc_vals=None):
         ps = [_cc("sid", 0, first, 8, 0, True)]
         pos = 1
+        if draw(st.integers(0, 6)) == 0:
+            ps += draw(split_byte(pos))
+            pos += 1
         m = draw(mrp_param(pos, rqlen, npre))
         if m is not None:
             ps.append(m)
@@ -143,7 +158,11 @@ def layers_strategy():
             npre = draw(st.sampled_from([1, 2, 0, 1, 2, 3, 1, 2]))
             pre = [draw(st.sampled_from(ALPHA)) for _ in range(npre)]
             rq = draw(prefix_params(pre))
-            rq += draw(tail_params(npre, 2))
+            nfix = npre
+            if npre >= 1 and draw(st.integers(0, 5)) == 0:
+                rq += draw(split_byte(npre))     # first byte stays completely constant
+                nfix += 1
+            rq += draw(tail_params(nfix, 2))
             if not rq and draw(st.integers(0, 3)):
                 rq = [_val("v0", 0, 8, True)]      # a request without any parameter stays rare
             rqo = {"name": f"rq_s{i}", "params": rq}
@@ -192,6 +211,9 @@ def layers_strategy():
                     continue
                 if nrc is not None and p["pos"] == nrc["pos"]:
                     vs[p["name"]] = draw(st.sampled_from(nrc["vals"]))
+                elif p["len"] < 8:
+                    top = (1 << p["len"]) - 1
+                    vs[p["name"]] = draw(st.one_of(st.integers(1, top), st.integers(0, top)))
                 elif p["len"] == 8:
                     vs[p["name"]] = draw(byte8)
                 else:
@@ -536,6 +558,9 @@ def layer_classes(layer) -> set:
         cl.add("gnr")
         if any(p["k"] == "mrp" for g in layer["gnrs"] for p in g["params"]):
             cl.add("gnr:mrp")
+    objs = [o for s in layer["services"] for o in [s["rq"]] + s["pos"] + s["neg"]] + layer["gnrs"]
+    if any(p["name"] == "cmid" for o in objs for p in o["params"]):
+        cl.add("cc:midbyte")
     if _partial_mrp(layer):
         cl.add("mrp:partial")
     cl.add(f"services:{len(layer['services'])}")
@@ -615,10 +640,17 @@ def run_case(case, res: core.ShardResult | None, kf, stop_at_first=True, exhaust
     for m in case.get("extra", []):
         msgs.setdefault(bytes(m), "msg:random")
 
+    # own encodings whose constant run ends mid-byte and whose co-located VALUE bits are not 0
+    mid = {m for kind, s, o, req, m in own
+           if any(p["name"] == "cmid" for p in o["params"]) and values[o["name"]].get("vsub")}
     first = True
     for m, mclass in msgs.items():
         fails, classes, matched = eval_decode(layer, dl, m)
         classes.add(mclass)
+        if m in mid:
+            classes.add("msg:own-midbyte-nonzero")
+            if any(c.startswith("attributed:") for c in classes):
+                classes.add("attributed:midbyte")
         if first:
             classes |= lcl
             first = False
